@@ -99,6 +99,71 @@ pub fn run(rep: &mut Report) {
             }
         }
     }
+    // ---- identical huge sets streamed in two different orders into tiny f32 sketches: J = 1 must be met exactly in every view
+    // (with ~n/2^23 probability two items tie on the minimal r of a bin; the winner must not depend on order)
+    for kind in [UKind::OptF32, UKind::RevF32] {
+        let cell = format!("{}/identical_huge/m=1", kind.name());
+        if !rep.want(&cell) {
+            continue;
+        }
+        let n = rep.tier.pick(300_000usize, 600_000usize);
+        let tt: u64 = rep.tier.pick(128, 1024);
+        let targets = vec![Target::new("float_view", 1., Kind::Exact), Target::new("u64_view", 1., Kind::Exact), Target::new("u32_view", 1., Kind::Exact)];
+        let seed = subseed(rep.seed, &cell, &[]);
+        let (rs, trials) = staged(seed, tt, 1, &targets, |rng, out| {
+            let a = fresh_ids(rng, n, 0);
+            let mut ska = make_usk(kind, 1);
+            ska.sketch_slice(&a);
+            let mut skb = make_usk(kind, 1);
+            for x in a.iter().rev() {
+                skb.sketch(*x);
+            }
+            skb.finish();
+            let (ba, bb) = (ska.bits(), skb.bits());
+            for v in 0..3 {
+                out[v] = if ba[v] == bb[v] { 1. } else { 0. };
+            }
+        });
+        let case = json!({"kind": kind.name(), "m": 1, "items": n, "J": 1, "orders": "forward slice vs reversed item-wise"});
+        rep.distinct.insert(mix(&[fnv64(cell.as_bytes())]));
+        record_cell(rep, "C08", &cell, &rs, trials * 2, case);
+    }
+    // ---- structured (low entropy) identifiers with NoHashHasher: the item value is the hash. Disjoint sets whose identifiers are
+    // related (halves swapped, small ranks, shifted ranks) must still never agree in the u64 view nor (beyond 2^-32) in the u32 view
+    for (ki, kind) in [UKind::OptF64NoHash, UKind::RevF64NoHash].iter().enumerate() {
+        for (fi, family) in ["swapped_halves", "ranks_vs_shifted_ranks", "xor_equal_halves"].iter().enumerate() {
+            for m in [8usize, 300] {
+                let cell = format!("{}/structured/{}/m={}", kind.name(), family, m);
+                if !rep.want(&cell) {
+                    continue;
+                }
+                let kind = *kind;
+                let nitems = 12usize;
+                let tt: u64 = rep.tier.pick(1500, 15_000);
+                let targets = vec![Target::new("float_view", 1e-9, Kind::Upper), Target::new("u64_view", 0., Kind::Exact), Target::new("u32_view", 1e-6, Kind::Upper)];
+                let seed = subseed(rep.seed, "C08/structured", &[ki as u64, fi as u64, m as u64]);
+                let (rs, trials) = staged(seed, tt, 2, &targets, |rng, out| {
+                    let base: u64 = rng.random_range(1..1_000_000);
+                    let (a, b): (Vec<u64>, Vec<u64>) = match fi {
+                        0 => ((0..nitems as u64).map(|k| ((base + k) << 32) | (base + k + 5000)).collect(), (0..nitems as u64).map(|k| ((base + k + 5000) << 32) | (base + k)).collect()),
+                        1 => ((0..nitems as u64).map(|k| base + k).collect(), (0..nitems as u64).map(|k| (base + k) << 32).collect()),
+                        _ => ((0..nitems as u64).map(|k| ((base + k) << 32) | 7).collect(), (0..nitems as u64).map(|k| (7u64 << 32) | (base + k)).collect()),
+                    };
+                    let mut ska = make_usk(kind, m);
+                    ska.sketch_slice(&a);
+                    let mut skb = make_usk(kind, m);
+                    skb.sketch_slice(&b);
+                    let (ba, bb) = (ska.bits(), skb.bits());
+                    for v in 0..3 {
+                        out[v] = (0..m).filter(|&p| ba[v * m + p] == bb[v * m + p]).count() as f64 / m as f64;
+                    }
+                });
+                let case = json!({"kind": kind.name(), "m": m, "identifier_family": family, "items_per_set": nitems, "J": 0});
+                rep.distinct.insert(mix(&[fnv64(cell.as_bytes())]));
+                record_cell(rep, "C08", &cell, &rs, trials * 2, case);
+            }
+        }
+    }
     collect_ticks(rep);
     rep.assumptions.push("positions of a densified sketch are strongly correlated in the sparse regime: only the empirical trial-level variance is used".into());
 }
